@@ -242,6 +242,8 @@ type Ctl struct {
 	PlainReaders bool
 	// ReadChunk > 0: such readers deliver at most that many bytes per Read call
 	ReadChunk int
+	// EOFWithData: such readers return io.EOF together with the last bytes
+	EOFWithData bool
 
 	Gate *Gate // nil: calls run freely
 
@@ -524,8 +526,8 @@ func (v *View) Get(_ context.Context, key string) (io.ReadCloser, error) {
 		e.Data = o.data
 	}
 	v.emit(e)
-	if v.C != nil && (v.C.PlainReaders || v.C.ReadChunk > 0) {
-		return plainReadCloser{r: bytes.NewReader(append([]byte(nil), o.data...)), chunk: v.C.ReadChunk}, nil
+	if v.C != nil && (v.C.PlainReaders || v.C.ReadChunk > 0 || v.C.EOFWithData) {
+		return &plainReadCloser{r: bytes.NewReader(append([]byte(nil), o.data...)), chunk: v.C.ReadChunk, eofWithData: v.C.EOFWithData, left: len(o.data)}, nil
 	}
 	return memReader{bytes.NewReader(append([]byte(nil), o.data...))}, nil
 }
@@ -533,17 +535,24 @@ func (v *View) Get(_ context.Context, key string) (io.ReadCloser, error) {
 // plainReadCloser is a reader with nothing but Read and Close (no io.WriterTo, io.Seeker, Len):
 // consumers have to copy through their own buffers.
 type plainReadCloser struct {
-	r     io.Reader
-	chunk int // > 0: at most that many bytes per Read (a network-style reader)
+	r           io.Reader
+	chunk       int  // > 0: at most that many bytes per Read (a network-style reader)
+	eofWithData bool // the Read that delivers the last byte also returns io.EOF
+	left        int
 }
 
-func (p plainReadCloser) Read(b []byte) (int, error) {
+func (p *plainReadCloser) Read(b []byte) (int, error) {
 	if p.chunk > 0 && len(b) > p.chunk {
 		b = b[:p.chunk]
 	}
-	return p.r.Read(b)
+	n, err := p.r.Read(b)
+	p.left -= n
+	if p.eofWithData && err == nil && p.left == 0 && n > 0 {
+		return n, io.EOF
+	}
+	return n, err
 }
-func (plainReadCloser) Close() error                 { return nil }
+func (*plainReadCloser) Close() error                 { return nil }
 
 type atReader struct {
 	v   *View
